@@ -196,7 +196,23 @@ def py_side(repo):
     for f in sorted(glob.glob(os.path.join(pdir, "*.py"))):
         tree = ast.parse(open(f).read())
         fn = os.path.basename(f)
+        # a declaration is in force only if it is EXECUTED when the module is imported: statements of the module body and of
+        # compound statements / class bodies nested in it — not the bodies of functions (a declaration that slipped into a
+        # wrapper function, e.g. after its return, never runs); calls are collected everywhere
+        def import_time(body):
+            for st in body:
+                yield st
+                if isinstance(st, (ast.FunctionDef, ast.AsyncFunctionDef, ast.Lambda)):
+                    continue
+                for fld in ("body", "orelse", "finalbody", "handlers"):
+                    sub = getattr(st, fld, None)
+                    if isinstance(sub, list):
+                        for x in import_time([h for h in sub if isinstance(h, ast.stmt)] + [s2 for h in sub if isinstance(h, ast.ExceptHandler) for s2 in h.body]):
+                            yield x
+        live = set(id(n) for n in import_time(tree.body))
         for node in ast.walk(tree):
+            if isinstance(node, ast.Assign) and id(node) not in live and not any(isinstance(t_, ast.Name) and t_.id == "_fields_" for t_ in node.targets):
+                continue
             if isinstance(node, ast.ClassDef) and any((isinstance(b, ast.Attribute) and b.attr == "Structure") or (isinstance(b, ast.Name) and b.id == "Structure") for b in node.bases):
                 for st in node.body:
                     if isinstance(st, ast.Assign) and any(isinstance(t, ast.Name) and t.id == "_fields_" for t in st.targets) and isinstance(st.value, (ast.List, ast.Tuple)):
